@@ -43,13 +43,23 @@ Definition rrdp_eqb (a b : rrdp) : bool :=
   state_eqb (r_st a) (r_st b) && (r_session a =? r_session b) && (r_snaprnd a =? r_snaprnd b)
   && list_eqb ddata_eqb (r_deltas a) (r_deltas b).
 
+(** Model entry against observed entry. Where the model leaves the content unspecified ([CMix]:
+    a file overwritten in place with different content of unknown length) any file matches. *)
 Definition node_sim (a b : node) : bool :=
-  match a, b with Dir, Dir => true | File x, File y => fcontent_eqb x y | _, _ => false end.
+  match a, b with
+  | Dir, Dir => true
+  | File CMix, File _ => true
+  | File x, File y => fcontent_eqb x y
+  | _, _ => false
+  end.
 Definition in_roots (roots : list name) (p : path) : bool :=
   match p with x :: _ => existsb (name_eqb x) roots | [] => false end.
 Definition fs_sim (roots : list name) (a b : fs) : bool :=
-  seteq (fun x y => path_eqb (fst x) (fst y) && node_sim (snd x) (snd y))
-        (filter (fun e => in_roots roots (fst e)) a) (filter (fun e => in_roots roots (fst e)) b).
+  let ma := filter (fun e => in_roots roots (fst e)) a in     (* model *)
+  let ob := filter (fun e => in_roots roots (fst e)) b in     (* observed *)
+  let sim := fun (x y : path * node) => path_eqb (fst x) (fst y) && node_sim (snd x) (snd y) in
+  (N.of_nat (length ma) =? N.of_nat (length ob))
+  && forallb (fun x => existsb (sim x) ob) ma && forallb (fun y => existsb (fun x => sim x y) ma) ob.
 
 (** Snapshot files of other serials than the current one: the clean-up removes at most one per
     probe event and which one follows [read_dir]; trees cut inside the clean-up are compared
@@ -185,11 +195,9 @@ Definition ok_contig (c : case) : bool :=
   end.
 
 (** retention: [strict] = the property's text (never more than max_nr); otherwise the proved
-    bound: if no delta at index >= max_nr - 1 is protected (index < min_nr or younger than
+    bound: if the delta at index max_nr - 1 is not protected (index < min_nr or younger than
     min_seconds), at most max_nr deltas are retained; every retained old delta is protected or
     not older than max_seconds. *)
-Definition protected (c : cfg) (now : Z) (i : N) (d : ddata) : bool :=
-  (i <? c_min_nr c) || younger_than now (c_min_secs c) d.
 Fixpoint forall_idx {A : Type} (p : N -> A -> bool) (i : N) (l : list A) : bool :=
   match l with [] => true | x :: r => p i x && forall_idx p (i + 1) r end.
 Definition ok_retention (c : case) : bool :=
@@ -200,7 +208,10 @@ Definition ok_retention (c : case) : bool :=
         let n := N.of_nat (length (r_deltas post)) in
         if strict then n <=? c_max_nr cf
         else (if (1 <=? c_max_nr cf)
-                 && forall_idx (fun i d => if c_max_nr cf - 1 <=? i then negb (protected cf now i d) else true) 0 (r_deltas pre)
+                 && match nth_error (r_deltas pre) (N.to_nat (c_max_nr cf - 1)) with
+                    | Some d => negb (protected cf now (c_max_nr cf - 1) d)
+                    | None => true
+                    end
               then n <=? c_max_nr cf else true)
              && forall_idx (fun i d => if i <? n - 1 then protected cf now i d || negb (older_than now (c_max_secs cf) d) else true)
                            0 (r_deltas pre)
